@@ -3,7 +3,7 @@ CONSTANTS
   Deltas = {1, 9999, 10000, 10001, 99999999, 100000000, 123456789}
   Factors = {1, 2, 7, 10, 9999, 10000, 10001, 86400, 146097, 200000}
   Limit = 1000000000
-  MaxSteps = 4
+  MaxSteps = 2
   BigFactors = {2, 9999, 10000, 86400, 146097, 200000}
   MaxDigits = 40
 INVARIANTS Twin TwinCmp TwinAddSub TwinMul TwinDec TwinDiv TwinShift BigWF BigAddSub BigMulDiv BigDec BigCmp BigChain BigDistrib BigShift
